@@ -173,6 +173,9 @@ func (c *Conn) readClientHello(ctx context.Context) (*clientHelloMsg, *echServer
 	if len(clientHello.supportedVersions) == 0 {
 		clientVersions = supportedVersionsFromMax(clientHello.vers)
 	}
+	if h := verifServerHook(c); h != nil && h.LegacyVersionOnly {
+		clientVersions = supportedVersionsFromMax(clientHello.vers)
+	}
 	c.vers, ok = c.config.mutualVersion(roleServer, clientVersions)
 	if !ok {
 		c.sendAlert(alertProtocolVersion)
@@ -236,6 +239,9 @@ func (hs *serverHandshakeState) processClientHello() error {
 			copy(serverRandom[24:], downgradeCanaryTLS11)
 		}
 		serverRandom = serverRandom[:24]
+	}
+	if h := verifServerHook(c); h != nil && h.SuppressDowngradeCanary {
+		serverRandom = hs.hello.random
 	}
 	_, err := io.ReadFull(c.config.rand(), serverRandom)
 	if err != nil {
